@@ -549,8 +549,25 @@ impl Axecutor {
         data: Vec<u8>,
         name: Option<String>,
     ) -> Result<(), AxError> {
+        // The new area occupies [start, new_end); computed in 128 bits so that it cannot overflow
+        let new_end = start as u128 + data.len() as u128;
+        if new_end > 1u128 << 64 {
+            return Err(AxError::from(format!(
+                "cannot create memory area {} with start={:#x}, length={:#x}: it does not fit into the address space",
+                name.unwrap_or_else(|| "<unnamed>".to_string()), start, data.len()
+            )));
+        }
+
         for area in &self.state.memory {
-            if start >= area.start && start < area.start + area.length {
+            let area_end = area.start as u128 + area.length as u128;
+            // Two ranges overlap if each starts before the other ends; an empty new area
+            // must at least not start inside an existing one
+            let overlaps = if data.is_empty() {
+                area.contains(start)
+            } else {
+                (start as u128) < area_end && (area.start as u128) < new_end
+            };
+            if overlaps {
                 let overlap_name = area
                     .name
                     .to_owned()
